@@ -68,10 +68,30 @@ def generate(rng, tier, idx):
     if sc['normalise_first']:
         sc['force'] = True
         sc['round2'] = None
+    if rng.random() < 0.3:
+        sc['orig_key'] = 'other'      # the tree was signed by somebody else's key; re-signing without a key id uses OUR default key
     if rng.random() < 0.25:
         # one sub-Manifest carries a valid cleartext signature on disk (signed by hand, or once a top-level Manifest)
         sc['sub_signed'] = rng.randrange(100)
     return sc
+
+
+_DEFAULT = {}
+
+
+def default_fpr():
+    """Primary-key fingerprint of the key GnuPG itself picks in the signer's home when none is named."""
+    if 'fpr' not in _DEFAULT:
+        import subprocess
+        p_ = subprocess.run([GS.REAL_GPG, '--batch', '--faked-system-time', GS.SIGN_TIME, '--clearsign'], input=b'probe\n',
+                            env=dict(os.environ, GNUPGHOME=GS.signer_home(), TZ='UTC'), capture_output=True, timeout=60)
+        fpr_ = None
+        if p_.returncode == 0:
+            clear_, good_ = GS.gpg_cleartext(p_.stdout.decode('utf8'), faketime=None)
+            if good_:
+                fpr_ = getattr(GS.gpg_cleartext, 'last_fpr', None)
+        _DEFAULT['fpr'] = fpr_
+    return _DEFAULT['fpr']
 
 
 def norm(text):
@@ -88,7 +108,7 @@ def run_world(sc, sign, keyid, fault, orig_signed):
             with _o['open'](top, 'rb') as f:
                 plain = G.decompress(f.read(), G.comp_of(topname)).decode('utf8')
             with _o['open'](top, 'wb') as f:
-                f.write(G.compress(GS.clearsign(plain, key='signer').encode('utf8'), G.comp_of(topname)))
+                f.write(G.compress(GS.clearsign(plain, key=sc.get('orig_key', 'signer')).encode('utf8'), G.comp_of(topname)))
         pre_signed = None
         if sc.get('sub_signed') is not None:
             subs_ = sorted(m_['p'] for m_ in sc.get('manifests', []) if m_['p'] != topname and os.path.isfile(os.path.join(w.root, m_['p'])))
@@ -248,6 +268,8 @@ def execute(sc):
                         violations.append(viol('sign.signature-does-not-verify', '%s: gpg rejects the saved top-level Manifest' % what, sig='gpg'))
                     else:
                         want_key = GS.FPR[keyid] if keyid in ('signer', 'other') else None
+                        if keyid is None:
+                            want_key = default_fpr()      # no key id given: GnuPG's default key, whoever signed before
                         if want_key and fpr != want_key:
                             violations.append(viol('sign.wrong-key', '%s: signed by %s' % (what, 'another key'), sig='key'))
                         # twin world: same update, signing off
